@@ -8,6 +8,11 @@ GROW = ("Database::merge_all", "Database::run_rule_set", "Database::merge_table"
 BRIDGE = "egglog_bridge"
 
 
+def rule_set_runners(prog):
+    """names of the bridge functions that call Database::run_rule_set directly (today: run_rules_impl)"""
+    return {f.name for f in prog.lib_fns([BRIDGE]) if f.kind != "closure" and any(c.p.endswith("Database::run_rule_set") for c in f.calls)}
+
+
 def natural_loops(fn):
     """list of (header, body-set, back-edge-sources)"""
     loops = {}
@@ -184,15 +189,16 @@ def analyse_accumulator_loop(prog, fn, h, body):
                                 return True
         return False
 
+    rri = rule_set_runners(prog)
     for c in fn.calls:
-        if c.bb in body and c.is_("run_rules_impl"):
+        if c.bb in body and c.p in rri:
             n_calls += 1
             if not ors_into_x(fn, c):
                 problems.append(f"result of run_rules_impl at {c.loc} is not OR-ed into the loop flag")
     for (i, j, name, ops) in closures:
         for g in [prog.fns.get(name)] + [x for x in prog.children(prog.fns[name])] if prog.fns.get(name) else []:
             for c in g.calls:
-                if c.is_("run_rules_impl"):
+                if c.p in rri:
                     n_calls += 1
                     if not ors_into_x(g, c, ops):
                         problems.append(f"result of run_rules_impl at {c.loc} (closure) is not OR-ed into the loop flag")
@@ -239,8 +245,9 @@ class RebuildModel:
         for f in prog.lib_fns([BRIDGE]):
             if f.kind == "closure":
                 continue
-            if not (f.calls_to("Database::apply_rebuild") or f.calls_to("run_rules_impl") or any(
-                    prog.fns.get(n) and prog.fns[n].calls_to("run_rules_impl") for _, _, n, _ in f.closures_created())):
+            rri = rule_set_runners(prog)
+            if not (f.calls_to("Database::apply_rebuild") or any(c.p in rri for c in f.calls) or any(
+                    prog.fns.get(n) and any(c.p in rri for c in prog.fns[n].calls) for _, _, n, _ in f.closures_created())):
                 continue
             loops = natural_loops(f)
             entries = []
